@@ -736,7 +736,8 @@ REAL = {
 ASSUME = [
     "base regime: planted originals cannot textually coincide with or contain anything the obfuscators emit, nor each other (except a generated suffix pair of host names)",
     "IPv4 originals are canonical dotted quads delimited by non-word characters other than '.'; hosts are delimited by characters outside [A-Za-z0-9._-]",
-    "password secrets use the character class the masking expression claims; one password key per line",
+    "password secrets use the character class the masking expression claims; further password keys on a line are blank separated",
+    "concurrent callers share a Cleaner only with obfuscation off (collect() refuses the parallel strategy otherwise)",
     "<= 6 specs x <= 8 lines x <= 7 tokens per line, token pools of <= 5 per kind (recurrence is forced)",
     "IPv6 originals are not planted (the property does not speak about them); the IPv6 obfuscator still takes part in the pipeline order",
 ]
@@ -800,7 +801,11 @@ class C08(CleanerCheck):
             "regex with POSIX classes, system FQDN with 0-2 domain labels) x history of 1-4 (thorough 6) specs through ONE Cleaner, "
             "each with its own no_obfuscate subset, no_redact, optional allow-list, width flag; lines = typed segments (IPv4, "
             "host, fqdn, short name, MAC in ':'/'-' and upper/lower notation, keyword, pattern text, password assignment with 9 "
-            "separators, fillers, 22 delimiters) in marker or free mode (tokens at line start/end); oracle = no planted sensitive "
+            "separators, fillers, 22 delimiters + in 10% of cases the 8 characters str.splitlines() breaks at) in marker or free mode "
+            "(tokens at line start/end); entry points content list / single string / clean_file; addresses next to the exempt "
+            "127.0.0.1; hosts matching the domain only through its unescaped dot; with obfuscation off 60% of multi-spec histories "
+            "are cleaned by concurrent SimPool tasks sharing the Cleaner (seeded walk / PCT schedule, pre-emption at line events in "
+            "insights/cleaner); oracle = no planted sensitive "
             "token survives unless exempt or equal to a substitute already issued in this history; non-trivial = >= 2 planted "
             "tokens; distinct = digest of outputs + mappings")
 
@@ -827,8 +832,9 @@ class C09(CleanerCheck):
     quick = dict(runs=300000, wall=100)
     thorough = dict(runs=4000000, wall=1500)
     rule = ("case = as C08 (width off) with small token pools recurring within a line, across lines and across specs, a generated "
-            "suffix pair of host names in 25% of cases, an address that is a textual prefix of another in 20%, and a collision "
-            "regime (4%) planting originals equal to issued substitutes; oracle = differential: every input line rebuilt with "
+            "suffix pair of host names in 25% of cases, an address that is a textual prefix of another in 20%, a collision "
+            "regime (4%) planting IPv4 originals equal to issued substitutes and a mac-chain regime (4% of cases with MAC "
+            "obfuscation) planting an original MAC equal to the substitute of another in every order; oracle = differential: every input line rebuilt with "
             "each planted token replaced by the mapping the cleaner REPORTS must equal the cleaner's output line for line across "
             "all specs; injectivity of IPv4 / host mappings; no phantom originals; facts file (generate_rhsm_facts into a scratch "
             "dir) carries the same pairs")
@@ -855,7 +861,9 @@ class C10(CleanerCheck):
             "worker interpreters that differ only in PYTHONHASHSEED (16 distinct seeds per batch) and the digests of (outputs, "
             "mappings) are compared; inside each run the order in which redactor / allow-list / obfuscators are applied to each "
             "line must be consistent with one total order; marker mode: output markers are a sub-sequence of input markers and "
-            "each output line carries exactly one; an all-blank result is []")
+            "each output line carries exactly one; an all-blank result is [] (clean_file: the file is removed); concurrent histories "
+            "(obfuscation off) must equal the same history run serially; end-to-end share: one collection repeated three times in "
+            "one process stores identical content")
 
     def generate(self, st, tier):
         if st.knob.random() < self.e2e_share:
